@@ -14,6 +14,46 @@ const NAMES: [&str; 3] = ["a", "b", "c"];
 /// `010` and `10` collide by value, `8` would collide with `010` read as octal
 const CODES: [Option<&str>; 4] = [None, Some("8"), Some("010"), Some("10")];
 
+/// second alphabet (data values): names that differ in case, by an underscore, by a digit, by a
+/// prefix or a repetition, a 100-character name; codes 0 / 00, 1 / 01 (equal by value), the
+/// largest three-byte code, the 31-bit and 32-bit limits
+const NAMES2: [&str; 9] = [
+    "get", "Get", "GET", "get_", "_get", "get1", "ge", "getget",
+    "a_method_name_that_is_one_hundred_characters_long_0123456789_0123456789_0123456789_0123456789_0123456",
+];
+const CODES2: [Option<&str>; 10] = [
+    None, Some("0"), Some("00"), Some("1"), Some("01"), Some("16777215"), Some("2147483647"), Some("2147483648"),
+    Some("4294967295"), Some("0000000001"),
+];
+
+fn make_case2(seq: &[usize]) -> Case {
+    let mut item = Item::new(ItemKind::Interface, "I");
+    for s in seq {
+        let mut m = Method::new(Ty::void(), NAMES2[s / CODES2.len()], vec![]);
+        m.code = CODES2[s % CODES2.len()].map(|c| c.to_string());
+        item.members.push(Member::Method(m));
+    }
+    let files = vec![ProjFile::from_doc_styled("obs", Document::new("p", item), false)];
+    let exp = expect_observed(&files, 0);
+    let doc = files[0].doc.as_ref().unwrap();
+    let r = files[0].rendered.as_ref().unwrap();
+    let regions = vec![Loc::within(r.start(doc.item.lbrace_tok), r.end(doc.item.span.last))];
+    let recs: Vec<Rec> = exp.recs.clone();
+    Case {
+        prop: PROP.into(),
+        kind: format!("values-len{}", seq.len()),
+        label: format!(
+            "members [{}]",
+            seq.iter()
+                .map(|s| format!("{}{}", NAMES2[s / CODES2.len()], CODES2[s % CODES2.len()].map(|c| format!("={c}")).unwrap_or_default()))
+                .collect::<Vec<_>>()
+                .join(", ")
+        ),
+        files: files.iter().map(|f| (f.id.clone(), f.text.clone())).collect(),
+        expect: expect_json(&exp, &recs, &regions, "obs"),
+    }
+}
+
 /// alphabet: 12 methods + 1 constant + 1 constant named like a method
 fn member(sym: usize, idx: usize) -> Member {
     if sym == 13 {
@@ -168,6 +208,28 @@ pub fn run(tier: Tier, seed: u64) -> i32 {
         check_case,
     );
     stats.space(json!({"space": "member sequences", "alphabet": "3 names x {no code, 8, 010, 10} + 1 constant + 1 constant named like a method", "max_length": l, "sequences": n}));
+    // data values: every sequence of <= 2 (thorough 3) methods over 9 names x 10 codes
+    {
+        let n2 = NAMES2.len() * CODES2.len();
+        let k2 = if tier == Tier::Quick { 2 } else { 3 };
+        let total = seq_total(n2, k2);
+        super::drive(
+            &stats,
+            total,
+            1,
+            |i| {
+                let seq = seq_at(i, n2, k2);
+                if seq.is_empty() {
+                    return None;
+                }
+                let c = make_case2(&seq);
+                stats.nontrivial(fnv(&c.files[0].1));
+                Some(c)
+            },
+            check_case,
+        );
+        stats.space(json!({"space": "data values", "names": NAMES2, "codes": CODES2, "sequences_up_to": k2, "cases": total}));
+    }
     let sizes = [9usize, 10, 11, 12, 16, 17, 24, 33, 40];
     super::drive(
         &stats,
